@@ -62,7 +62,7 @@ Probe(hops, final, url, left, acc) ==
               [] a.loc = "invalid" -> [reqs |-> acc1, url |-> url, err |-> TRUE]
               [] OTHER -> Probe(hops, final, Resolve(url, a.loc, a.hop), left - 1, acc1)
 
-Mw == {"pass1", "pass2", "short", "extra", "redir0", "redir1", "redir2", "redir3"}
+Mw == {"pass1", "pass2", "short", "extra", "extrar", "redir0", "redir1", "redir2", "redir3"}
 Attempts(m) == CASE m = "redir0" -> 0 [] m = "redir1" -> 1 [] m = "redir2" -> 2 [] m = "redir3" -> 3
 
 EXTRA == [dir |-> <<"extra">>, file |-> "e"]
@@ -82,6 +82,13 @@ Run(stack, hops, final, url, body) ==
               \* a request of its own through the client it was given (no middleware), then the rest
               LET r == Run(rest, hops, final, url, body) IN
               [log |-> << [t |-> "shell", url |-> EXTRA, body |-> FALSE] >> \o r.log, out |-> r.out]
+         [] m = "extrar" ->
+              \* a request of its own that carries per-request middleware (Redirect, one attempt), prepared
+              \* beforehand and sent as a clone: the clone is wrapped like any request -- one probe, then the
+              \* request itself -- before the rest of the chain runs
+              LET n == Run(<<"redir1">>, hops, final, EXTRA, FALSE)
+                  r == Run(rest, hops, final, url, body) IN
+              [log |-> n.log \o r.log, out |-> r.out]
          [] OTHER ->
               LET p == Probe(hops, final, url, Attempts(m), <<>>)
                   probes == [i \in DOMAIN p.reqs |-> [t |-> "shell", url |-> p.reqs[i].url, body |-> FALSE]] IN
@@ -95,7 +102,7 @@ HopSeqs == {<<>>} \cup {<<a>> : a \in HopKind} \cup {<<a, b>> : a \in HopKind, b
 WellFormed(h) == \A i \in DOMAIN h : (h[i] \in {"invalid", "nr300", "nr304"}) => i = Len(h)
 
 Stacks == {<<>>} \cup {<<a>> : a \in Mw} \cup {<<a, b>> : a \in Mw, b \in Mw}
-          \cup {<<a, b, d>> : a \in {"pass1", "redir2"}, b \in {"pass2", "extra", "redir1", "short"}, d \in {"pass1", "redir3", "extra"}}
+          \cup {<<a, b, d>> : a \in {"pass1", "redir2"}, b \in {"pass2", "extra", "extrar", "redir1", "short"}, d \in {"pass1", "redir3", "extra"}}
 
 VARIABLES stack, hops, final, api
 vars == <<stack, hops, final, api>>
